@@ -330,7 +330,7 @@ def check(fx, rep, tier):
     rep.extra["taint_sources"] = len({(a, c) for a, b, c in ta.sources})
     rep.extra["tainted_fields"] = sorted(f"{a}::{v}.{f}" for a, v, f in ta.tf)
     rep.extra["functions_returning_taint"] = len(ta.tret)
-    rows = {r[0]: r for r in tables.read("panic_sites.tsv")}
+    rows = tables.Keyed("panic_sites.tsv", fx)
     used_rows = set()
 
     n_assert = n_call = n_auto = n_table = 0
@@ -588,7 +588,7 @@ def check(fx, rep, tier):
     rep.extra["stale_table_rows"] = stale[:20]
 
     # ---------------------------------------------------------------- R01.3 recursion
-    rrows = {r[0]: r for r in tables.read("recursion.tsv")}
+    rrows = tables.Keyed("recursion.tsv", fx)
     import sys
 
     sys.setrecursionlimit(10000)
